@@ -231,10 +231,12 @@ def interp(I, sd, stmts, env, hook=None, trace=None):
             for _ in range(max(0, p_int(s[1], env))):
                 interp(I, sd, s[2], dict(env), hook, trace)
         elif k == "align":
+            sd._verif_kind = "bitarray"
             sd.byte_align(tname(s[1]))
         elif k == "bbegin":
             sd.bounded_block_begin(p_int(s[1], env))
         elif k == "bend":
+            sd._verif_kind = "bitarray"
             sd.bounded_block_end(tname(s[1]))
         elif k == "list":
             sd.declare_list(tname(s[1]))
